@@ -3,7 +3,7 @@
     S = SlabSpec.v (flat n-d array), M = SlabModel.v (NCcoordck, NC_varoffset, NCvcmaxcontig, NCvario,
     NCsimplerecio, NCgenio, hdf_xdr_NCvdata; boundary conditions regenerated into gen/Gen_Slab.v). *)
 From Coq Require Import ZArith List Bool.
-Require Import H4.SlabSpec H4.gen.Gen_Slab H4.SlabModel H4.SlabProofs.
+Require Import H4.SlabSpec H4.gen.Gen_Slab H4.SlabModel H4.SlabProofs H4.SlabRefine.
 Import ListNotations.
 Local Open Scope Z_scope.
 
@@ -61,8 +61,13 @@ Print Assumptions genio_plan_correct.
     request (ex_oob) -- leaves every cell whose offset is not one of the requested slab's cell offsets unchanged.
     Proof: vario_loop_frame / genio_loop_frame (inductions over both loops), write_cells_frame, and
     vario_plan_correct to identify the union of the transferred blocks with the slab.
-    PARTIAL -- missing: record variables (dimension 0 growable on write, bounded by numrecs on read); for the very
-    first write the frame reads "everything outside the transfer holds the fill value" (first_write_fills). *)
+    First write included (fourth conjunct, sd_write_frame_base, stride NULL): counting the content of a still empty
+    element as all fill values, ANY SDwritedata changes only cells of the requested region that lie inside the
+    shape -- so after a first write, failing or not, every cell outside the region holds the fill value.
+    PARTIAL -- missing: record variables (dimension 0 growable on write, bounded by numrecs on read: NCcoordck then
+    changes the state, the lemmas coordck_fixed / vario_loop_false / vario_oob_fails need record-variable twins, and
+    the 1-d record variable goes through NCsimplerecio); the first-write form of the frame for stride arrays
+    (needs the accounting of the user values across NCgenio's calls of NCvario). *)
 Theorem out_of_range_rejected_partial :
   (forall m us start stride count,
      is_recvar m = false -> (0 < length (m_shape m))%nat ->
@@ -84,6 +89,14 @@ Theorem out_of_range_rejected_partial :
      (us = true -> length stride = length (m_shape m)) -> Forall (fun d => 0 <= d) (m_shape m) ->
      ~ In (Z.of_nat j * m_esz m) (map (varoffset m) (slab_cells start (if us then stride else ones start) count)) ->
      nth j (m_store (fst (sd_write m us start stride count vals))) Undef = nth j (m_store m) Undef) /\
+  (forall m start stride count vals i,
+     okvar m -> (0 < length (m_shape m))%nat ->
+     length start = length (m_shape m) -> length count = length (m_shape m) ->
+     length vals = Z.to_nat (prod count) ->
+     let m' := fst (sd_write m false start stride count vals) in
+     okvar m' /\ m_shape m' = m_shape m /\
+     (nth i (base m') Undef = nth i (base m) Undef \/
+      In i (map (idx (m_shape m)) (filter (inb (m_shape m)) (slab_cells start (ones start) count))))) /\
   (* strided reads reaching the extent are rejected before any transfer, dataset untouched *)
   (forall m start stride count,
      is_recvar m = false -> (0 < length (m_shape m))%nat ->
@@ -97,7 +110,7 @@ Theorem out_of_range_rejected_partial :
      any2 coordck_bad c shape = negb (all3 (fun x d _ => (0 <=? x) && (x <? d)) c shape c)).
 Proof.
   split. exact sd_read_rejected. split. exact sd_write_rejected. split. exact sd_write_frame.
-  split. exact sd_read_strided_rejected.
+  split. exact sd_write_frame_base. split. exact sd_read_strided_rejected.
   split. exact stride_check_spec0. split. exact stride_check_speci. exact any2_coordck.
 Qed.
 Print Assumptions out_of_range_rejected_partial.
@@ -144,13 +157,39 @@ Theorem unlimited_growth : forall m coords rc,
 Proof. exact unlimited_growth_lemma. Qed.
 Print Assumptions unlimited_growth.
 
-(** NOT PROVED (full statement kept visible):
-      slab_refines_array : forall history h of OpWrite/OpRead/OpInfo/OpReopen in fill mode,
-        every value/return/extent in m_run (m_init sh u nt) h agrees with s_run (s_init sh u (default_fill nt)) h
-        wherever the specification gives ROk/RFail and a defined cell.
-    It needs the two missing inductions named above plus a store/array simulation invariant
-    (nth i (m_store m) = nth i (a_cells a) for i < extent).  Today it rests on the three-way correspondence
-    R ~ M ~ S run by checks/C03.py on every generated history. *)
+(** The implementation model refines the array specification on whole operation histories.
+    For every fixed-size dataset of rank >= 1 with extents >= 1 and every supported number type, and for EVERY
+    history of SDsetfillmode (other than SD_NOFILL), SDsetfillvalue (before or after the first write),
+    SDsetblocksize, SDwritedata and SDreaddata with stride NULL -- valid requests, requests reaching outside the
+    shape (with their partial writes), empty / negative counts --, SDgetinfo/SDgetfillvalue and SDend+SDstart:
+    the model's run and the specification's run agree operation by operation:
+      - wherever the specification says ROk the model returns 0, wherever it says RFail the model returns -1;
+      - every cell the specification defines in a successful read (a written value, or the fill value for a cell
+        never written) is the cell the model reads;
+      - every extent lies in the specification's interval, the fill-value attribute is the same.
+    [op_dom] is exactly this domain (argument vectors of the dataset's rank, as many values as selected cells);
+    [out_sim] is the agreement of one operation's outputs.  The proof is a simulation: [sim a m] relates the array
+    to the element content (all fill values while the element is still empty), is established by SDcreate
+    (sim_init) and preserved by every operation (sim_step: sim_write, sim_read, ...), then lifted to histories by
+    induction (run_sim).  Outside this theorem (correspondence only): stride arrays (NCgenio), unlimited
+    datasets, no-fill mode (outside the model as well), rank 0. *)
+Theorem sd_refines_array : forall shape nt ops,
+  (0 < length shape)%nat -> Forall (fun d => 1 <= d) shape ->
+  (exists s, nt_size nt = Some s /\ 0 < s) ->
+  Forall (op_dom (length shape)) ops ->
+  Forall2 out_sim (s_run (s_init shape false (default_fill nt)) ops) (m_run (m_init shape false nt) ops).
+Proof. exact sd_refines_array_lemma. Qed.
+Print Assumptions sd_refines_array.
+
+(** the simulation relation is established by SDcreate and preserved by every operation of the domain *)
+Theorem sim_invariant :
+  (forall shape nt, (0 < length shape)%nat -> Forall (fun d => 1 <= d) shape ->
+     (exists s, nt_size nt = Some s /\ 0 < s) ->
+     sim (s_init shape false (default_fill nt)) (m_init shape false nt)) /\
+  (forall a m o, sim a m -> op_dom (length (m_shape m)) o ->
+     sim (fst (s_step a o)) (fst (m_step m o)) /\ out_sim (snd (s_step a o)) (snd (m_step m o))).
+Proof. split. exact sim_init. exact sim_step. Qed.
+Print Assumptions sim_invariant.
 
 (* ---- non-vacuity: the hypotheses are met by concrete, non-trivial states -------------------- *)
 Definition ex_m : mstate := m_init [3; 4; 5] false DFNT_INT16.
@@ -219,6 +258,26 @@ Example ex_oob_strided :
   snd (sd_write (m_init [3; 4] false DFNT_UINT8) true [0; 1] [2; 2] [2; 3] [1;2;3;4;5;6]) =
     MRet (-1) [TWrite 0 1; TWrite 1 1; TWrite 2 10; TWrite 3 1].
 Proof. vm_compute. split; reflexivity. Qed.
+
+(** sd_refines_array is not vacuous: a history of its domain on a 3x4 uint8 dataset -- fill value set, a valid
+    write, a write reaching outside the shape (partial write), an empty write, a fill value set after the first
+    write, reads, reopen -- and the two runs it relates *)
+Example ex_refines_domain :
+  let ops := [OpFillv 9; OpWrite false [1; 1] [] [2; 2] [11; 12; 13; 14];
+              OpWrite false [1; 2] [] [3; 2] [21; 22; 23; 24; 25; 26];
+              OpWrite false [0; 0] [] [0; 1] [];
+              OpFillv 5; OpRead false [0; 0] [] [3; 4]; OpReopen; OpInfo; OpRead false [2; 0] [] [2; 1]] in
+  Forall (op_dom 2) ops /\ (exists s, nt_size DFNT_UINT8 = Some s /\ 0 < s) /\
+  s_run (s_init [3; 4] false (default_fill DFNT_UINT8)) ops =
+    [SNone; SRet ROk; SRet RFail; SRet RAny; SNone;
+     SRead ROk [Undef; Undef; Undef; Undef; Undef; Val 11; Undef; Undef; Undef; Val 13; Undef; Undef];
+     SNone; SInfo [(3, 3); (4, 4)] (Some 5); SRead RFail []] /\
+  m_run (m_init [3; 4] false DFNT_UINT8) ops =
+    [MNone; MRet 0 [TWrite 0 5; TWrite 5 2; TWrite 7 5; TWrite 9 2]; MRet (-1) [TWrite 6 2; TWrite 10 2];
+     MRet 0 []; MNone;
+     MRead 0 [Val 9; Val 9; Val 9; Val 9; Val 9; Val 11; Val 21; Val 22; Val 9; Val 13; Val 23; Val 24] [TRead 0 12];
+     MNone; MInfo [3; 4] (Some 5); MRead (-1) [Val 9] [TRead 8 1]].
+Proof. vm_compute. repeat split; repeat constructor; try discriminate. all: try (eexists; split; reflexivity). Qed.
 
 (** the whole model and the specification on one history: strided write, out-of-range read, full read *)
 Example ex_history :
